@@ -63,7 +63,10 @@ def ridgeSegment (spherical : Bool) (natAtMinDepth : P3 R) (check other : P2 R)
   let cmp2 : P3 R := if spherical then ⟨dc, pb2.x, pb2.y⟩ else ⟨pb2.x, pb2.y, dc⟩
   let d1 := distanceSameDepth spherical natAtMinDepth cmp1
   let d2 := distanceSameDepth spherical natAtMinDepth cmp2
-  let (d, sp, su) := if d2 < d1 then (d2, sp2, su2) else (d1, sp1, su1)
+  -- the copy that is closer in longitude to the segment is the one that is used (was `if d2 < d1`: the far copy always projects onto an end point,
+  -- which could win on the sphere; upstream 'fix: ridge distance in spherical worlds depended on the sign of the query longitude')
+  let mid := (0.5 : R) * (s0.x + s1.x)
+  let (d, sp, su) := if fabs (other.x - mid) < fabs (check.x - mid) then (d2, sp2, su2) else (d1, sp1, su1)
   if first ∨ d < acc.distance then { acc with distance := d, spreading := sp, subducting := su } else acc
 
 def ridgeSegments (spherical : Bool) (natAtMinDepth : P3 R) (check other : P2 R)
